@@ -72,7 +72,11 @@ MANIFEST = {
              "kind x transport combinations; thorough: all 972), accepted and AddConn'ed connections, connections the engine "
              "dials (DialAsync with the pollers kept busy - connect completion and greeting in one event - and idle; Dial + AddConn with "
              "the greeting already in the socket; the greeting must be delivered without further input), a write-back load that switches "
-             "the write interest while the connection is read, OnData / OnDataPtr, bursts around the "
+             "the write interest while the connection is read, OnData / OnDataPtr, user-supplied read buffers (custom IOExecute: windows of one arena with len < cap, "
+             "varying lengths with a canary behind the length, synchronous, late and reordered; OnReadBufferAlloc/Free hooks: arena windows behind "
+             "fresh or kept slice headers, varying lengths; oracles: no chunk longer than its buffer, nothing written behind a buffer's length, "
+             "buffers handed back with their length, callback data unchanged while the callback holds it, datagrams longer than the buffer cut to "
+             "exactly its length), LockPoller, bursts around the "
              "buffer and limit thresholds, pauses, half-close right behind the data and after delivery in every stream cell, numbered "
              "datagrams in bursts of 6-20 from 2-4 remotes with short-then-long pairs; what the callback received per connection must equal "
              "what was sent, no overlapping callbacks per connection, one *Conn per remote, idle CPU after the traffic (three windows); "
